@@ -27,4 +27,26 @@ Definition sec (K : pt C) (compressed : bool) : bytes :=
 (* PublicKey.parse *)
 Definition pubkey_parse (b : bytes) : res (pt C) := of_option (parse_pt C b).
 
+
+(* PrivateKey.wif / from_wif *)
+Variable alph : list Z.
+Variable sha256 : bytes -> bytes.
+
+Definition wif_payload (k : bytes) (compressed testnet : bool) : bytes :=
+  (if testnet then [239] else [128]) ++ k ++ (if compressed then [1] else []).
+Definition wif (k : bytes) (compressed testnet : bool) : res str :=
+  encode_base58_checksum alph sha256 (wif_payload k compressed testnet).
+
+Definition from_wif (s : str) : res (bytes * pt C) :=
+  do decoded <- decode_base58_checksum alph sha256 s;
+  match s with
+  | [] => Err                                              (* wif_str[0]: IndexError *)
+  | c0 :: _ =>
+      if (c0 =? 75) || (c0 =? 76) || (c0 =? 99) then        (* "K", "L", "c" *)
+        match rev decoded with
+        | 1 :: _ => privkey_of_bytes (drop 1 (drop_last 1 decoded))   (* assert decoded[-1] == 1 *)
+        | _ => Err
+        end
+      else privkey_of_bytes (drop 1 decoded)
+  end.
 End Keys.
